@@ -242,7 +242,7 @@ func waitCaughtUp(c cache.Cache, s *Store, pool string) (bool, string) {
 		for _, p := range want {
 			h := have[p.Namespace+"/"+p.Name]
 			if h == nil || !metaEq(&h.ObjectMeta, &p.ObjectMeta) || h.Spec.NodeName != p.Spec.NodeName || h.Status.Phase != p.Status.Phase ||
-				!equality.Semantic.DeepEqual(h.Status.Conditions, p.Status.Conditions) {
+				!sameConditions(h.Status.Conditions, p.Status.Conditions) {
 				d := "missing in lister"
 				if h != nil {
 					d = fmt.Sprintf("lister: labels=%v ann=%v node=%q phase=%s del=%v cond=%v | store: labels=%v ann=%v node=%q phase=%s del=%v cond=%v",
@@ -343,12 +343,20 @@ func waitCaughtUp(c cache.Cache, s *Store, pool string) (bool, string) {
 				ok := false
 				for _, pg := range pgs {
 					if pg.Name == l.Items[i].Name && metaEq(&pg.ObjectMeta, &l.Items[i].ObjectMeta) && equality.Semantic.DeepEqual(pg.Spec, l.Items[i].Spec) &&
-						equality.Semantic.DeepEqual(pg.Status, l.Items[i].Status) {
+						sameIgnoringTimes(pg.Status, l.Items[i].Status) {
 						ok = true
 					}
 				}
 				if !ok {
-					return "podgroup " + l.Items[i].Name
+					d := ""
+					for _, pg := range pgs {
+						if pg.Name == l.Items[i].Name {
+							a, _ := json.Marshal(pg)
+							b, _ := json.Marshal(l.Items[i])
+							d = fmt.Sprintf(" lister=%s store=%s", a, b)
+						}
+					}
+					return "podgroup " + l.Items[i].Name + d
 				}
 			}
 		}
@@ -414,7 +422,7 @@ func waitCaughtUp(c cache.Cache, s *Store, pool string) (bool, string) {
 		}
 		return ""
 	}
-	deadline := time.Now().Add(2 * time.Minute)
+	deadline := time.Now().Add(30 * time.Second)
 	if os.Getenv("VERIF_DEBUG") != "" {
 		deadline = time.Now().Add(3 * time.Second)
 	}
@@ -472,3 +480,52 @@ func (s *Store) BumpClaimVersions() {
 }
 
 var claimGVR = schema.GroupVersionResource{Group: "resource.k8s.io", Version: "v1", Resource: "resourceclaims"}
+
+// sameConditions compares pod conditions without their timestamps: the status updater stamps the informer's own pod
+// object in place with time.Now() and skips the API patch when type / status / reason / message are unchanged, so the
+// lister's copy can carry a newer (and finer grained) transition time than the store for ever.
+func sameConditions(a, b []v1.PodCondition) bool {
+	if len(a) != len(b) {
+		return false
+	}
+	for i := range a {
+		if a[i].Type != b[i].Type || a[i].Status != b[i].Status || a[i].Reason != b[i].Reason || a[i].Message != b[i].Message {
+			return false
+		}
+	}
+	return true
+}
+
+// sameIgnoringTimes compares two API values by their JSON form with every lastTransitionTime removed (see sameConditions:
+// the status updater works on the informer's own objects).
+func sameIgnoringTimes(a, b any) bool {
+	strip := func(v any) any {
+		raw, err := json.Marshal(v)
+		if err != nil {
+			return nil
+		}
+		var x any
+		if json.Unmarshal(raw, &x) != nil {
+			return nil
+		}
+		var walk func(any)
+		walk = func(n any) {
+			switch t := n.(type) {
+			case map[string]any:
+				delete(t, "lastTransitionTime")
+				for _, c := range t {
+					walk(c)
+				}
+			case []any:
+				for _, c := range t {
+					walk(c)
+				}
+			}
+		}
+		walk(x)
+		return x
+	}
+	ja, _ := json.Marshal(strip(a))
+	jb, _ := json.Marshal(strip(b))
+	return string(ja) == string(jb)
+}
